@@ -314,6 +314,7 @@ Proof.
   unfold dco_candidate. destruct (dco_skips (nop n)); [discriminate|].
   destruct (readers nl (ndest n)) as [|r0 [|? ?]] eqn:Er; try discriminate.
   destruct (nop r0) eqn:Eo; try discriminate. destruct (is_output nl (ndest r0)) eqn:Ei; [|discriminate].
+  cbn [andb]. destruct (width_of nl (ndest r0) =? width_of nl (ndest n)); [|discriminate].
   intro H. injection H as <-. repeat split; auto.
   assert (Hin : In r0 (readers nl (ndest n))) by (rewrite Er; left; reflexivity).
   unfold readers in Hin. apply filter_In in Hin. apply Hin.
